@@ -1,0 +1,43 @@
+//go:build verif
+// +build verif
+
+/*
+SPDX-License-Identifier: Apache-2.0
+*/
+
+package legacyconnection
+
+// VerifStates lists the state names of the Connection state machine (verification hook).
+func VerifStates() []string {
+	return []string{stateNameNoop, stateNameNull, StateIDInvited, StateIDRequested, StateIDResponded, StateIDCompleted}
+}
+
+// VerifCanTransition evaluates the real CanTransitionTo on two state names.
+func VerifCanTransition(from, to string) bool {
+	a, err := stateFromName(from)
+	if err != nil {
+		return false
+	}
+
+	b, err := stateFromName(to)
+	if err != nil {
+		return false
+	}
+
+	return a.CanTransitionTo(b)
+}
+
+// VerifMsgTypes lists the message types of the protocol.
+func VerifMsgTypes() []string {
+	return []string{InvitationMsgType, RequestMsgType, ResponseMsgType, AckMsgType}
+}
+
+// VerifMsgTarget returns the name of the state a message of the given type leads to ("" if unrecognised).
+func VerifMsgTarget(msgType string, _ bool) string {
+	s, err := stateFromMsgType(msgType)
+	if err != nil {
+		return ""
+	}
+
+	return s.Name()
+}
